@@ -1042,6 +1042,16 @@ class Interp:
                 raise Unsupported("slice assignment on symbolic sequence")
             o.set(idx, v)
             return
+        if isinstance(idx, np.ndarray) and idx.dtype == object and isinstance(o, np.ndarray) and idx.shape == o.shape:
+            # boolean-mask assignment with a symbolic mask: elementwise if-then-else (no fork)
+            if o.dtype != object:
+                raise Unsupported("symbolic mask assignment into a native array")
+            vals = np.broadcast_to(np.asarray(v, dtype=object), o.shape) if isinstance(v, np.ndarray) and v.shape == o.shape else None
+            flat_o, flat_m = o.reshape(-1), idx.reshape(-1)
+            for i in range(flat_o.size):
+                newv = v if vals is None else vals.reshape(-1)[i]
+                flat_o[i] = If(flat_m[i], newv, flat_o[i])
+            return
         if is_sym(idx):
             c = concrete_value(idx)
             if c is None:
